@@ -92,7 +92,7 @@ def PbfIn.readExactF (p : PbfIn) (size : Nat) : Except PbfErr (Bytes × PbfIn) :
 
 def PbfIn.readHeaderSizeF (maxHeader : Nat) (p : PbfIn) : Except PbfErr (Nat × PbfIn) :=
   match p.readExactF 4 with
-  | .error _ => .ok (0, p)
+  | .error _ => if (p.buf ++ p.src.pending).isEmpty then .ok (0, p) else .error .truncated
   | .ok (b, p') =>
     let size := be32 b
     if size > maxHeader then .error .headerTooLarge else .ok (size, p')
@@ -147,5 +147,32 @@ def O5mIn.ensureF (o : O5mIn) (need : Nat) : Bool × O5mIn :=
   else
     let (ok, inp, s') := o5mFillF (o.src.chunks.length + 1) o.window o.src need
     (ok, { consumed := 0, window := inp, src := s' })
+
+/-! ## the ways out of the carry-over functions that the models have
+
+Compared with what the current source contains (Generated/C06Exits.lean, regenerated on every
+run) by `carry_over_exits_modelled` in Props/C06.lean: a `throw`, a named limit or a numeric
+constant that appears in one of these functions and is not listed here is behaviour the model
+does not have (e.g. a "line too long" error on one carry-over path). -/
+
+/-- (function, exception class) in source order.
+    `lineByLine`, `O5mIn.ensure` (returns a Bool) and `xmlFeed` have no error outcome;
+    `PbfIn.ensure` → `.truncated`; `readHeaderSize` → `.truncated` ("unexpected EOF": the input ends
+    inside the 4-byte length field; once on the file-descriptor path, once on the queue path) and
+    `.headerTooLarge`;
+    `readFrame` → `.blobTooLarge` and, on the file-descriptor path only (`m_fd != -1`, no queue:
+    the `file` streams of the check), "unexpected EOF" = `.truncated`. -/
+def modelledThrows : List (String × String) := [
+  ("PBFParser::ensure_available_in_input_queue", "osmium::pbf_error"),
+  ("PBFParser::read_blob_header_size_from_file", "osmium::pbf_error"),
+  ("PBFParser::read_blob_header_size_from_file", "osmium::pbf_error"),
+  ("PBFParser::read_blob_header_size_from_file", "osmium::pbf_error"),
+  ("PBFParser::read_from_input_queue_with_check", "osmium::pbf_error"),
+  ("PBFParser::read_from_input_queue_with_check", "osmium::pbf_error")]
+
+/-- the parameters `maxHeader`, `maxBlob` of `PbfIn.readHeaderSize` / `PbfIn.readFrame` -/
+def modelledLimits : List (String × String) := [
+  ("PBFParser::read_blob_header_size_from_file", "max_blob_header_size"),
+  ("PBFParser::read_from_input_queue_with_check", "max_uncompressed_blob_size")]
 
 end Osmium.Chunks
